@@ -9,7 +9,12 @@ verif_xtp_driver(drv_huffman ${D}/huffman.cc
   ${XTP_SRC}/gnode.cc ${XTP_SRC}/rate_engine.cc ${XTP_SRC}/qmpair.cc ${XTP_SRC}/segment.cc
   ${XTP_SRC}/atom.cc ${XTP_SRC}/kmccalculator.cc
   # LoadGraph needs a Topology with a neighbour list
-  ${XTP_SRC}/topology.cc ${XTP_SRC}/qmnblist.cc ${XTP_SRC}/checkpoint.cc ${XTP_SRC}/qmstate.cc)
+  ${XTP_SRC}/topology.cc ${XTP_SRC}/qmnblist.cc ${XTP_SRC}/checkpoint.cc ${XTP_SRC}/qmstate.cc
+  # the real KMCLifetime::RunVSSM
+  ${XTP_SRC}/calculators/kmclifetime.cc)
+# scripted random numbers: huffman_shim/votca/tools/random.h shadows the repository's header for
+# this target only (same class, same members; draws are popped from a script while one is active)
+target_include_directories(drv_huffman BEFORE PRIVATE ${D}/huffman_shim)
 target_link_libraries(drv_huffman PRIVATE VOTCA::votca_csg)
 target_compile_options(drv_huffman PRIVATE -ffunction-sections -fdata-sections)
 target_link_options(drv_huffman PRIVATE -Wl,--gc-sections)
